@@ -330,6 +330,28 @@ def st_table(draw, max_rows=6, max_width=4, ragged=None, pool=None, none_cells=T
     return rows, width
 
 
+def st_join_table(draw, max_rows, max_width, pool, first_full, allow_empty_p=10):
+    """Tables for join cases: the first 1-2 columns hold few distinct key values (so that
+    multi-match and unmatched keys are common); columns beyond the first may be missing."""
+    keypool = ['a', 'b', 'ab', '']
+    width = draw(st.integers(1, max_width))
+    nrows = 0 if draw(st.integers(0, allow_empty_p)) == 0 else draw(st.integers(1, max_rows))
+    ragged = draw(st.integers(0, 2)) == 0
+    rows = []
+    for i in range(nrows):
+        w = width
+        if ragged and not (first_full and i == 0):
+            w = draw(st.integers(1, width))
+        row = []
+        for j in range(w):
+            if j < 2:
+                row.append(draw(st.sampled_from(keypool)) if draw(st.integers(0, 11)) else None)
+            else:
+                row.append(draw(st.sampled_from(pool)) if draw(st.integers(0, 5)) else None)
+        rows.append(row)
+    return rows, width
+
+
 # ---------------------------------------------------------------------------------------------
 # joins
 
@@ -339,15 +361,15 @@ JOIN_KINDS = ['JOIN', 'INNER JOIN', 'LEFT JOIN', 'LEFT OUTER JOIN', 'STRICT LEFT
 def st_join(draw, a_min_width, b_min_width, a_names, b_names, kinds=None, max_pairs=3, allow_nr=True):
     """Key fields are taken from columns every record has (so that no key is missing)."""
     kind = draw(st.sampled_from(kinds or JOIN_KINDS))
-    npairs = draw(st.integers(1, max_pairs)) if draw(st.integers(0, 2)) == 0 else 1
+    npairs = draw(st.integers(1, max_pairs)) if draw(st.integers(0, 1)) == 0 else 1
     pairs = []
     for _ in range(npairs):
-        lk = draw(st.integers(0, 7)) if allow_nr else 1
+        lk = draw(st.integers(0, 9)) if allow_nr else 1
         if lk == 0 or a_min_width == 0:
             l = {'nr': draw(st.sampled_from(['NR', 'aNR', 'a.NR'] if a_names is None else ['NR', 'aNR']))}  # a.NR collides with the attribute scan when a header exists
         else:
             l = {'f': _keyfield(draw, 'a', a_min_width, a_names)}
-        rk = draw(st.integers(0, 7)) if allow_nr else 1
+        rk = draw(st.integers(0, 9)) if allow_nr else 1
         if rk == 0 or b_min_width == 0:
             r = {'nr': draw(st.sampled_from(['bNR', 'b.NR'] if b_names is None else ['bNR']))}
         else:
@@ -511,13 +533,16 @@ def st_case_select(draw, js=False, join_p=3, order=False, distinct=False, top=Fa
     if dup_heavy:
         pool = pool[:6]
     hdr = draw(st.booleans())
-    A, aw = st_table(draw, max_rows=max_rows, max_width=max_width, pool=pool, first_full=hdr)
+    if force_join:
+        A, aw = st_join_table(draw, max_rows, max_width, pool, hdr)
+    else:
+        A, aw = st_table(draw, max_rows=max_rows, max_width=max_width, pool=pool, first_full=hdr)
     a_names = st_names(draw, aw) if (hdr and aw > 0) else None
     join = None
     B, b_names, bw = None, None, 0
     a_min = min([len(r) for r in A] + [aw])
     if (force_join or (join_p and draw(st.integers(0, join_p - 1)) == 0)):
-        B, bw = st_table(draw, max_rows=5, max_width=3, pool=pool[:8], min_width=1, first_full=a_names is not None)
+        B, bw = st_join_table(draw, 5, 3, pool[:8], a_names is not None)
         b_min = min([len(r) for r in B] + [bw])
         b_names = st_names(draw, bw) if a_names is not None else None
         join = st_join(draw, a_min, b_min, a_names, b_names, kinds=kinds)
@@ -563,12 +588,16 @@ def st_case_select(draw, js=False, join_p=3, order=False, distinct=False, top=Fa
 def st_case_update(draw, js=False, join_p=4, multi_match=False):
     pool = (JS_SAFE_CELL_POOL if js else CELL_POOL)
     hdr = draw(st.booleans())
-    A, aw = st_table(draw, max_rows=6, max_width=4, pool=pool, min_width=1, min_rows=0, first_full=hdr)
+    want_join = bool(join_p) and draw(st.integers(0, join_p - 1)) == 0
+    if want_join:
+        A, aw = st_join_table(draw, 6, 4, pool, hdr)
+    else:
+        A, aw = st_table(draw, max_rows=6, max_width=4, pool=pool, min_width=1, min_rows=0, first_full=hdr)
     a_names = st_names(draw, aw) if hdr else None
     a_min = min([len(r) for r in A] + [aw])
     join, B, b_names, bw = None, None, None, 0
-    if join_p and draw(st.integers(0, join_p - 1)) == 0 and a_min > 0:
-        B, bw = st_table(draw, max_rows=4, max_width=3, pool=pool[:8], min_width=1, first_full=a_names is not None)
+    if want_join and a_min > 0:
+        B, bw = st_join_table(draw, 4, 3, pool[:8], a_names is not None)
         b_min = min([len(r) for r in B] + [bw])
         if not multi_match:
             # at most one match per key: make the B key column unique by dropping duplicates
@@ -586,17 +615,27 @@ def st_case_update(draw, js=False, join_p=4, multi_match=False):
             B = nb
     ctx = Ctx(draw, aw, a_names, bw, b_names, has_join=join is not None, js=js)
     n = draw(st.integers(1, 3))
-    # targets: mostly fields every record has; sometimes one past the shortest record (must fail there)
+    # targets: any column of the widest record (on a shorter qualifying record the assignment must fail)
     assign = []
-    for _ in range(n):
+    rotation = None
+    if a_min >= 2 and draw(st.integers(0, 2)) == 0:
+        # swap / rotation: every right-hand side reads another assigned field
+        n = draw(st.integers(2, min(3, a_min)))
+        rotation = draw(st.permutations(list(range(a_min))))[:n]
+    for ai in range(n):
         hi = aw - 1
-        idx = draw(st.integers(0, hi))
+        idx = draw(st.integers(0, hi)) if rotation is None else rotation[ai]
         sps = ['aN', 'a[N]']
         if a_names is not None:
             sps += ['a["n"]', "a['n']"] + (['a.n'] if is_attr_name(a_names[idx]) else [])
         tgt = field_expr('a', idx, draw(st.sampled_from(sps)), a_names)
         k = draw(st.integers(0, 6))
-        if k <= 1:
+        if rotation is not None:
+            rhs = field(ctx, table='a', idx=rotation[(ai + 1) % n])
+            if draw(st.integers(0, 3)) == 0:
+                rhs = both('{} + {}', '{} + {}', 'str', {'py': "(%s or '')" % rhs['py'], 'js': "(%s || '')" % rhs['js'], 'name': rhs['name']}, strlit(ctx))
+                rhs['name'] = {'f': ['a', rotation[(ai + 1) % n]]}
+        elif k <= 1:
             rhs = field(ctx, table='a', allow_past_end=False)      # reads another (possibly assigned) field
         elif k == 2:
             rhs = both('{} + {}', '{} + {}', 'str', sfield(ctx, table='a'), strlit(ctx))
@@ -613,6 +652,6 @@ def st_case_update(draw, js=False, join_p=4, multi_match=False):
     form = draw(st.integers(0, 2))
     q['set_kw'] = form == 1
     q['update_a'] = form == 2
-    if draw(st.booleans()):
+    if draw(st.integers(0, 2)) != 0:
         q['where'] = e_truthy(ctx)
     return {'A': A, 'B': B, 'a_names': a_names, 'b_names': b_names, 'q': q}
